@@ -1396,4 +1396,17 @@ def typing_stress_docs() -> list[tuple[str, dict]]:
                              "responses": {"200": dict(ok, content={"application/json": {"schema": {"anyOf": [R("N")], "oneOf": [{"type": "array", "items": R("N2")}]}}})}}},
         }
         out.append((f"typing:{version}", d))
+        # defaults in every accepted spelling: the emitted literal must have the annotated type (an integer written 10.0 / "4.0" / 2e1 is an int)
+        d2 = base_doc(version, "Typing defaults")
+        spell = {"i_plain": ("integer", 3), "i_float": ("integer", 10.0), "i_exp": ("integer", 2e1), "i_str": ("integer", "4"), "i_strfloat": ("integer", "4.0"), "i_neg": ("integer", -7.0),
+                 "n_int": ("number", 3), "n_float": ("number", 2.5), "n_str": ("number", "1.5"), "n_strint": ("number", "6"), "b_true": ("boolean", True), "b_str": ("boolean", "true"),
+                 "s_plain": ("string", "x"), "s_num": ("string", 5), "s_bool": ("string", True)}
+        d2["components"]["schemas"] = {"Defaults": {"type": "object", "properties": {k: {"type": t, "default": v} for k, (t, v) in spell.items()}},
+                                       "DefaultsNullable": {"type": "object", "properties": {k: ({"type": [t, "null"], "default": v} if version.startswith("3.1") else {"type": t, "nullable": True, "default": v}) for k, (t, v) in spell.items()}},
+                                       "DefaultsFormats": {"type": "object", "properties": {"day": {"type": "string", "format": "date", "default": "2020-01-02"}, "dt": {"type": "string", "format": "date-time", "default": "2020-01-02T03:04:05+00:00"},
+                                                                                            "u": {"type": "string", "format": "uuid", "default": "12345678-1234-5678-1234-567812345678"}, "e": {"type": "string", "enum": ["a", "b"], "default": "b"},
+                                                                                            "ei": {"type": "integer", "enum": [1, 2], "default": 2}, "c": {"const": "k", "default": "k"}}}}
+        d2["paths"] = {"/defaults": {"get": {"operationId": "defaults_get", "parameters": [{"name": k, "in": loc, "schema": {"type": t, "default": v}} for loc in ("query", "header") for k, (t, v) in spell.items() if not (loc == "header" and k.startswith("s_"))] ,
+                                             "responses": {"200": dict(ok, content={"application/json": {"schema": {"$ref": "#/components/schemas/Defaults"}}})}}}}
+        out.append((f"typing_defaults:{version}", d2))
     return out
